@@ -115,12 +115,19 @@ fn decode_inner(buf: &mut BytesMut) -> Result<Option<(RequestId, (Tag, Vec<Contr
         .and_then(|t| t.match_id(Types::Integer as u64))
         .and_then(|t| t.expect_primitive())
     {
-        Some(id_octets) => match parse_uint(id_octets.as_slice()) {
-            Ok((_, id)) => id as i32,
-            _ => return Err(decoding_error),
-        },
-        None => return Err(decoding_error),
+        // MessageID is INTEGER (0 .. maxInt): one to four octets, sign bit clear
+        Some(id_octets) if !id_octets.is_empty() && id_octets.len() <= 4 && id_octets[0] & 0x80 == 0 => {
+            match parse_uint(id_octets.as_slice()) {
+                Ok((_, id)) => id as i32,
+                _ => return Err(decoding_error),
+            }
+        }
+        _ => return Err(decoding_error),
     };
+    if !tags.is_empty() {
+        // elements in front of the message ID
+        return Err(decoding_error);
+    }
     Ok(Some((msgid, (Tag::StructureTag(protoop), controls))))
 }
 
